@@ -78,7 +78,8 @@ def judge_line(parts):
     else:
         return ("unknown-line", " ".join(parts))
     where = "%s %s container=%d width=%d offset=%d bytes=%s" % (ty, order, c, w, o, h)
-    known = "signed-enum-narrow-field-zero-extended" if signed_enum_narrow else None
+    # the listed defect only explains differences on values whose sign bit (at field width) is set
+    known = "signed-enum-narrow-field-zero-extended" if (signed_enum_narrow and (raw >> (w - 1)) & 1) else None
     if ok != eok:
         return (known or "ok-differs", "%s: Ok() %d expected %d" % (where, ok, eok))
     if eok and str(ev) != val:
@@ -88,6 +89,13 @@ def judge_line(parts):
     if not kind.startswith("E") and ty not in ("F",) and vsigned != esigned:
         return ("valuetype-signedness", "%s: ValueType signed=%d" % (where, vsigned))
     # write clause (C03 direct harness)
+    known = None
+    cont_vt = min(b for b in (8, 16, 32, 64) if b >= c)  # width of the bit block's C++ value type
+    if kind.startswith("ES") and (w < cont_vt or w < vbits) and not (0 <= wval <= hi):
+        # the listed defect on the write side: EnumView::CouldWriteValue compares the value cast to the bit block's
+        # unsigned value type, so a negative value is refused whenever the field is narrower than its container's C++ value type (even
+        # when it is as wide as the enum's underlying type)
+        known = "signed-enum-narrow-field-zero-extended"
     ecould = lo <= wval <= hi
     if could != (1 if ecould else 0):
         return (known or "could-differs", "%s: CouldWriteValue(%d) %d expected %d" % (where, wval, could, ecould))
@@ -142,7 +150,10 @@ def container_case(arg):
             except Exception as e:
                 v = ("oracle-exception", "%r on %s" % (e, line))
             if v:
-                if len(out["viol"]) < 60:
+                # capped PER MECHANISM: thousands of occurrences of a listed finding must not crowd out another one
+                permech = out.setdefault("per_mech", {})
+                permech[v[0]] = permech.get(v[0], 0) + 1
+                if permech[v[0]] <= 8:
                     out["viol"].append({"mech": v[0], "what": v[1], "line": line, "variant": variant})
                 out["nviol"] = out.get("nviol", 0) + 1
             elif out["sample"] is None and parts[0] == "I" and parts[3] == "5" and parts[6] == "1":
